@@ -31,7 +31,7 @@ class SheetParser:
         self.context[key] = value
 
     def remove_from_context(self, key):
-        self.context.pop(key)
+        self.context.pop(key, None)
 
     def get_shadowed_context(self, keys):
         """Entries of the context that adding the given keys would overwrite."""
